@@ -12,6 +12,7 @@ FUNCTIONS = [("pandapower.control.controller.trafo.DiscreteTapControl", "Discret
              ("pandapower.control.controller.trafo.DiscreteTapControl", "DiscreteTapControl.is_converged"),
              ("pandapower.control.controller.trafo.ContinuousTapControl", "ContinuousTapControl.control_step"),
              ("pandapower.control.controller.trafo.ContinuousTapControl", "ContinuousTapControl.is_converged"),
+             ("pandapower.control.controller.characteristic_control", "CharacteristicControl.is_converged"),
              ("pandapower.control.run_control", "get_controller_order"), ("pandapower.control.run_control", "control_implementation"),
              ("pandapower.control.run_control", "_control_step"), ("pandapower.control.run_control", "check_final_convergence")]
 STUBS = ["read_from_net / write_to_net of the tap controllers -> the symbolic pre-state (bus voltage, tap position) and a capture of what is written",
@@ -19,8 +20,8 @@ STUBS = ["read_from_net / write_to_net of the tap controllers -> the symbolic pr
          "run function record themselves in a trace"]
 ASSUMPTIONS = ["one inductive step from an arbitrary valid state: tap_min <= tap_pos <= tap_max (integers enumerated), vm_lower < vm_upper, vm symbolic",
                "level-wise semantics: the claim is per level (documented sequential semantics)"]
-OUTSIDE = ["real power flows between steps", "characteristic controls' numerics", "re-convergence of lower levels after higher levels act"]
-BOUNDS = {"quick": "discrete/continuous step x side-sign {+1,-1} x tap position {min, mid, max}, 1-2 trafos; ordering of 3 controllers; loop with 1-2 stub controllers, max_iter 1-2",
+OUTSIDE = ["real power flows between steps", "the characteristic curve itself (C32)", "re-convergence of lower levels after higher levels act"]
+BOUNDS = {"quick": "CharacteristicControl.is_converged for 1-2 elements; discrete/continuous step x side-sign {+1,-1} x tap position {min, mid, max}, 1-2 trafos; ordering of 3 controllers; loop with 1-2 stub controllers, max_iter 1-2",
           "thorough": "loop with max_iter 3, 3 controllers"}
 TMIN, TMAX = -2, 2
 
@@ -198,6 +199,50 @@ def make_loop(nctrl, max_iter):
     return fn
 
 
+def make_characteristic(n, applied):
+    """CharacteristicControl.is_converged from an arbitrary state: it may report convergence only if the set value it has just written
+    differs from the value the last power flow was computed with by less than tol - in either direction - for every element"""
+    def fn(ctx):
+        mod = ctx.load("pandapower.control.controller.characteristic_control")
+        c = object.__new__(mod.CharacteristicControl)
+        c.input_element, c.input_element_index, c.input_variable, c.read_flag = "res_bus", np.arange(n), "vm_pu", "single_index"
+        c.output_element, c.output_element_index, c.output_variable, c.write_flag = "sgen", np.arange(n), "q_mvar", "single_index"
+        c.characteristic_index = 0
+        c.applied = applied
+        tol = ctx.var("tol", 1e-6, 0.1)
+        c.tol = tol
+        x = ctx.array([ctx.var(f"input{i}", 0.8, 1.2) for i in range(n)])
+        prev = ctx.array([ctx.var(f"previous_output{i}", -5., 5.) for i in range(n)])
+        target = ctx.array([ctx.var(f"characteristic_value{i}", -5., 5.) for i in range(n)])
+        written = {}
+
+        class Net:
+            class characteristic:
+                class object:
+                    at = {0: (lambda v: target.copy())}
+
+        def read(net, element, index, variable, flag):
+            return x.copy() if element == "res_bus" else prev.copy()
+
+        def write(net, element, index, variable, values, mode):
+            written[(element, variable)] = np.array(values)
+        with patched(mod, read_from_net=read, write_to_net=write):
+            conv = bool(c.is_converged(Net))
+        ctx.true("writes_the_characteristic_value", ("sgen", "q_mvar") in written)
+        if ("sgen", "q_mvar") in written:
+            for i in range(n):
+                ctx.eq(f"written_value_is_the_characteristic_value/{i}", written[("sgen", "q_mvar")][i], target[i])
+        close = all_of([((target[i] - prev[i]) < tol) & ((prev[i] - target[i]) < tol) for i in range(n)]) if ctx.symbolic else \
+            all(abs(target[i] - prev[i]) < tol for i in range(n))
+        if conv:
+            ctx.true("converged_only_if_applied", bool(applied))
+            ctx.true("converged_only_if_every_output_moved_by_less_than_tol_in_either_direction", close)
+        else:
+            if applied:
+                ctx.true("not_converged_only_if_some_output_moved_by_tol_or_more", ~close if ctx.symbolic else (not close))
+    return fn
+
+
 def instances(tier):
     out = []
     for cs in (1, -1):
@@ -207,6 +252,9 @@ def instances(tier):
         for t0 in (TMIN, None, TMAX):
             out.append(Inst(f"continuous_cs{cs}_tap{t0}", make_continuous(cs, t0), nvars=12, samples=3,
                             meta=dict(controller="ContinuousTapControl", coeff_sign=cs, tap_pos=t0)))
+    for n_, ap in ((1, True), (2, True), (1, False)):
+        out.append(Inst(f"characteristic_{n_}el_applied{int(ap)}", make_characteristic(n_, ap), nvars=12, samples=3,
+                        meta=dict(controller="CharacteristicControl", elements=n_, applied=ap)))
     out.append(Inst("order_one_level", make_order((0, 0, 0)), nvars=8, samples=3, meta=dict(levels=(0, 0, 0))))
     out.append(Inst("order_two_levels", make_order((1, 0, 1)), nvars=8, samples=3, meta=dict(levels=(1, 0, 1))))
     loops = [(1, 1), (1, 2), (2, 1), (2, 2)] + ([(2, 3), (3, 2)] if tier == "thorough" else [])
